@@ -275,6 +275,8 @@ class Check(common.Check):
         if kind == 'fn':
             return ['fn' if rng.random() < 0.7 else 'fnc', rng.choice('FGHK')]
         if kind in ('strm', 'pat'):
+            if rng.random() < 0.25:          # values that depend on the input value passed to next()
+                return ['f' + kind, rng.choice('PQRS')]
             return [kind, [self.sym(rng) for _ in range(rng.choice([1, 1, 2, 3, 3, 4, 5]))]]
         if kind == 'opnd':
             return ['opnd', self.sym(rng)]
@@ -375,6 +377,8 @@ class Check(common.Check):
             return ['num', fnum(v, isinstance(v, int))]
         if k in ('fn', 'fnc'):
             return ['fnn' if k == 'fn' else 'fnnc', fnum(rng.choice([1, 2, 3, -1]), True), fnum(rng.choice([0, 1, 2, 0.5]))]
+        if k in ('fstrm', 'fpat'):
+            return [k + 'n', fnum(rng.choice([1, 2, 3, -1]), True), fnum(rng.choice([0, 1, 0.5, 2]))]
         if k in ('strm', 'pat', 'list', 'tuple', 'chan'):
             return [k, [self.numeric_of(rng, i) for i in d[1]]]
         if k == 'opnd':
